@@ -199,6 +199,8 @@ class MatrixExpression:
     def __rtruediv__(self, other: float | int) -> MatrixExpression:
         """Right division: other / self (scalar broadcast or element-wise array)."""
         rows, cols = self.shape
+        if isinstance(other, (list, tuple)):
+            other = np.asarray(other)
         if isinstance(other, np.ndarray) and other.ndim > 0:
             if other.shape != (rows, cols):
                 raise DimensionMismatchError(
@@ -998,6 +1000,8 @@ class MatrixVariable:
     def __rtruediv__(self, other: float | int) -> MatrixExpression:
         """Right division: other / X (scalar broadcast or element-wise array)."""
         rows, cols = self.shape
+        if isinstance(other, (list, tuple)):
+            other = np.asarray(other)
         if isinstance(other, np.ndarray) and other.ndim > 0:
             if other.shape != (rows, cols):
                 raise DimensionMismatchError(
